@@ -279,7 +279,7 @@ func randInput(c *Ctx, maxLen int) []rune {
 		case 0:
 			out[i] = rune(c.Rng.Intn(0x250))
 		case 1:
-			out[i] = []rune{0xffff, 0xfffe, 0x10000, 0xd7ff, 0xe000, 0x131, 0x17f, 0, 0x7f, 0xa0}[c.Rng.Intn(10)]
+			out[i] = []rune{0xffff, 0xfffe, 0x10000, 0xd7ff, 0xe000, 0x131, 0x17f, 0, 0x7f, 0xa0, 0xfeff, 0x100, 0xff, 0x212a, 0x2028}[c.Rng.Intn(15)]
 		default:
 			out[i] = classAlphabet[c.Rng.Intn(len(classAlphabet))]
 		}
